@@ -52,6 +52,7 @@ def run(ctx):
     ctx.check_props(hist, "prop.c07")
     ctx.check_props(splice, "prop.c07splice")
     ctx.check_props(unk, "prop.c07unknown")
+    ctx.check_props([f"prop.c07default {sel} {gb.gen_scalar(rng)} {hx(g.rbytes(rng, 16))} {w}" for sel in range(4) for w in "01"], "prop.c07default")
     ctx.check_props([f"prop.c07realrand {rng.randrange(4)} {gb.gen_scalar(rng)} 3" for _ in range(4 if ctx.quick else 40)], "prop.c07realrand")
 
 
